@@ -57,7 +57,7 @@ fn resp_has(resp: &RawResponse, binding: &str, wire: &str) -> bool {
 
 fn cause_of(classes: &[(String, &'static str)], st: &str, member: &str) -> &'static str {
     let key = format!("{st}.{member}");
-    const ORDER: &[&str] = &["header-double-space", "header-special", "xml-whitespace", "xml-empty", "xml-markup", "xml-nonascii", "enum-unknown"];
+    const ORDER: &[&str] = &["header-empty", "header-double-space", "header-special", "xml-whitespace", "xml-empty", "xml-markup", "xml-nonascii", "enum-unknown"];
     let mine: Vec<&'static str> = classes.iter().filter(|(k, _)| *k == key).map(|(_, c)| *c).collect();
     ORDER.iter().find(|c| mine.contains(c)).copied().unwrap_or("any")
 }
@@ -409,7 +409,8 @@ pub fn run(ctx: &RunCtx) -> i32 {
     let cfg0 = LoopCfg { host: HostCfg::None, vhost: false, auth: false, hops: 1 };
     let cfg1 = LoopCfg { host: HostCfg::Single(L_DOMAIN.into()), vhost: true, auth: true, hops: 1 };
     let cfg2 = LoopCfg { host: HostCfg::None, vhost: false, auth: false, hops: 2 };
-    let n_random = ctx.tier.sz(24, 2000);
+    let n_random = ctx.tier.sz(320, 40_000);
+    let sys_reps = ctx.tier.sz(6, 80);
     let mut total = par_run(ctx.workers, ops.len() as u64, |j, r| {
         let rt = new_runtime();
         let info = ops[j as usize];
@@ -418,8 +419,10 @@ pub fn run(ctx: &RunCtx) -> i32 {
             if mi.rust.is_empty() {
                 continue;
             }
-            let case = LCase { op: op.into(), cfg: if mi_idx % 2 == 0 { cfg0.clone() } else { cfg1.clone() }, seed: derive_seed(ctx.seed, op, 0x3030_0000 + mi_idx as u64).to_string(), presence: "minimal".into(), focus: Some(mi.rust.to_owned()), status_override: None, extra_headers: vec![] };
-            judge_looped(&rt, r, &case);
+            for rep in 0..sys_reps {
+                let case = LCase { op: op.into(), cfg: if (mi_idx as u64 + rep) % 2 == 0 { cfg0.clone() } else { cfg1.clone() }, seed: derive_seed(ctx.seed, op, 0x3030_0000 + mi_idx as u64 + (rep << 20)).to_string(), presence: "minimal".into(), focus: Some(mi.rust.to_owned()), status_override: None, extra_headers: vec![] };
+                judge_looped(&rt, r, &case);
+            }
         }
         let mut g = Rng::new(derive_seed(ctx.seed, "C03/meta", j));
         for i in 0..n_random {
@@ -451,7 +454,7 @@ pub fn run(ctx: &RunCtx) -> i32 {
         delays.extend(base - 5..=base + 5);
     }
     let mut g = Rng::new(derive_seed(ctx.seed, "C03/keepalive", 0));
-    for _ in 0..ctx.tier.sz(40, 2000) {
+    for _ in 0..ctx.tier.sz(300, 30_000) {
         delays.push(g.range(0, 1000) as u64);
     }
     let delays_ref = &delays;
